@@ -56,9 +56,12 @@ type symSide struct {
 	panicT  *symTerm
 	fail    string
 	// configuration
-	fieldKey func(t types.Type, idx int) string
-	opaque   func(fn *ssa.Function) (string, bool)
-	typeKey  func(t types.Type) string
+	// leafKey canonicalises the raw path of a field ("Type.i" or, through
+	// by-value sub-structs, "Type.i/j/..") to the key of its memory; paths it
+	// does not know (intermediate sub-structs, other types) map to themselves
+	leafKey func(raw string) string
+	opaque  func(fn *ssa.Function) (string, bool)
+	typeKey func(t types.Type) string
 }
 
 type symExec struct {
@@ -67,6 +70,8 @@ type symExec struct {
 	maxSteps int
 	gens     int
 	trace    []string
+	fnByName map[string]*ssa.Function
+	arrLen   map[int]int // array allocation (term id) -> length
 }
 
 func (s *symSide) clone() *symSide {
@@ -143,7 +148,13 @@ func (s *symSide) operand(f *symFrame, v ssa.Value) *symTerm {
 		}
 		return p.app("const", c.Value.ExactString())
 	case *ssa.Function:
-		return p.app("func", c.Name())
+		// a function used as a value: a closure without bindings
+		if s.x.fnByName == nil {
+			s.x.fnByName = map[string]*ssa.Function{}
+		}
+		key := s.name + ":" + c.String()
+		s.x.fnByName[key] = c
+		return p.mk("closure", key, 0, nil, nil)
 	case *ssa.Global:
 		return p.app("global", c.Name())
 	}
@@ -268,7 +279,41 @@ func (s *symSide) pure(f *symFrame, in ssa.Instruction) (*symTerm, bool) {
 		return p.app("unop", x.Op.String(), s.operand(f, x.X)), true
 	case *ssa.FieldAddr:
 		base := s.operand(f, x.X)
-		return p.app("addr", s.fieldKey(x.X.Type(), x.Field), base), true
+		if base.op == "addr" {
+			// a field of a by-value sub-struct: extend the path
+			if strings.HasPrefix(base.aux, "cell:") {
+				return p.app("addr", base.aux+"/"+fmt.Sprint(x.Field), base.args[0]), true
+			}
+			return p.app("addr", s.leafKey(base.aux+"/"+fmt.Sprint(x.Field)), base.args[0]), true
+		}
+		if symIsLocal(base) {
+			// a field of a local (non-escaping) struct variable: private memory
+			return p.app("addr", "cell:"+s.typeKey(deref(x.X.Type()))+"."+fmt.Sprint(x.Field), base), true
+		}
+		return p.app("addr", s.leafKey(s.typeKey(deref(x.X.Type()))+"."+fmt.Sprint(x.Field)), base), true
+	case *ssa.Field:
+		v := s.operand(f, x.X)
+		if v.op != "structval" {
+			return p.app("field", fmt.Sprint(x.Field), v), true
+		}
+		var sel []*symTerm
+		single := false
+		for i, lf := range symStructLeaves(x.X.Type()) {
+			if i >= len(v.args) {
+				break
+			}
+			if lf.sub == fmt.Sprint(x.Field) {
+				sel, single = []*symTerm{v.args[i]}, true
+				break
+			}
+			if strings.HasPrefix(lf.sub, fmt.Sprint(x.Field)+"/") {
+				sel = append(sel, v.args[i])
+			}
+		}
+		if single {
+			return sel[0], true
+		}
+		return p.mk("structval", s.typeKey(x.Type()), 0, sel, nil), true
 	case *ssa.ChangeType:
 		return s.operand(f, x.X), true
 	case *ssa.ChangeInterface:
@@ -292,7 +337,37 @@ func (s *symSide) pure(f *symFrame, in ssa.Instruction) (*symTerm, bool) {
 			args = append(args, s.operand(f, b))
 		}
 		fn := x.Fn.(*ssa.Function)
-		return p.mk("closure", fn.Name(), 0, args, nil), true
+		// function values are followed: the closure term names its function
+		// (anonymous function, method value wrapper, method expression thunk)
+		if s.x.fnByName == nil {
+			s.x.fnByName = map[string]*ssa.Function{}
+		}
+		key := s.name + ":" + fn.String()
+		s.x.fnByName[key] = fn
+		return p.mk("closure", key, 0, args, nil), true
+	case *ssa.IndexAddr:
+		base, idx := s.operand(f, x.X), s.operand(f, x.Index)
+		if base.op == "slice" {
+			base = base.args[0]
+		}
+		var et types.Type
+		switch u := x.X.Type().Underlying().(type) {
+		case *types.Pointer:
+			if a, ok := u.Elem().Underlying().(*types.Array); ok {
+				et = a.Elem()
+			}
+		case *types.Slice:
+			et = u.Elem()
+		}
+		if et == nil {
+			return nil, false
+		}
+		return p.app("addr", "cell:elem:"+s.typeKey(et), p.app("elem", "", base, idx)), true
+	case *ssa.Slice:
+		if x.Low == nil && x.High == nil && x.Max == nil {
+			return p.app("slice", "", s.operand(f, x.X)), true
+		}
+		return nil, false
 	}
 	return nil, false
 }
@@ -362,7 +437,7 @@ func (s *symSide) advance(pc *symPC) (int, *symTerm) {
 				et = pt.Elem()
 			}
 			var a *symTerm
-			if _, isStruct := et.Underlying().(*types.Struct); isStruct {
+			if _, isStruct := et.Underlying().(*types.Struct); isStruct && x.Heap {
 				s.nalloc++
 				a = p.app("alloc", fmt.Sprintf("%s%d", s.aprefix, s.nalloc))
 			} else {
@@ -371,10 +446,26 @@ func (s *symSide) advance(pc *symPC) (int, *symTerm) {
 				s.ncell++
 				a = p.app("alloc", fmt.Sprintf("cell.%s%d", s.aprefix, s.ncell))
 			}
-			if st, ok := et.Underlying().(*types.Struct); ok {
-				for i := 0; i < st.NumFields(); i++ {
-					fk := s.fieldKey(x.Type(), i)
-					s.mem[fk] = p.app("store", "", s.memGet(fk), a, s.zero(st.Field(i).Type()))
+			if _, ok := et.Underlying().(*types.Struct); ok {
+				for _, lf := range symStructLeaves(et) {
+					fk := s.leafKey(s.typeKey(et) + "." + lf.sub)
+					if symIsLocal(a) {
+						fk = "cell:" + s.typeKey(et) + "." + lf.sub
+					}
+					s.mem[fk] = p.app("store", "", s.memGet(fk), a, s.zero(lf.typ))
+				}
+			} else if at, isArr := et.Underlying().(*types.Array); isArr {
+				if at.Len() > 64 {
+					s.fail = "large array"
+					return symStopFail, nil
+				}
+				if s.x.arrLen == nil {
+					s.x.arrLen = map[int]int{}
+				}
+				s.x.arrLen[a.id] = int(at.Len())
+				fk := "cell:elem:" + s.typeKey(at.Elem())
+				for i := int64(0); i < at.Len(); i++ {
+					s.mem[fk] = p.app("store", "", s.memGet(fk), p.app("elem", "", a, p.intc(i)), s.zero(at.Elem()))
 				}
 			} else {
 				fk := "cell:" + s.typeKey(et)
@@ -392,8 +483,16 @@ func (s *symSide) advance(pc *symPC) (int, *symTerm) {
 				fk, base = "cell:"+s.typeKey(x.Type()), addr
 			}
 			if _, isStruct := x.Type().Underlying().(*types.Struct); isStruct {
-				s.fail = "whole-struct load"
-				return symStopFail, nil
+				// a struct value is the tuple of its leaves
+				s.deref(pc, base)
+				var vals []*symTerm
+				for _, lf := range symStructLeaves(x.Type()) {
+					k := s.structLeafKey(addr, x.Type(), lf.sub)
+					vals = append(vals, s.load(pc, s.memGet(k), base))
+				}
+				f.env[x] = p.mk("structval", s.typeKey(x.Type()), 0, vals, nil)
+				f.idx++
+				continue
 			}
 			s.deref(pc, base)
 			f.env[x] = s.load(pc, s.memGet(fk), base)
@@ -409,8 +508,22 @@ func (s *symSide) advance(pc *symPC) (int, *symTerm) {
 				fk, base = "cell:"+s.typeKey(x.Val.Type()), addr
 			}
 			if _, isStruct := x.Val.Type().Underlying().(*types.Struct); isStruct {
-				s.fail = "whole-struct store"
-				return symStopFail, nil
+				leaves := symStructLeaves(x.Val.Type())
+				if !(val.op == "structval" && len(val.args) == len(leaves)) && val.op != "zero" {
+					s.fail = "store of a struct value of unknown shape"
+					return symStopFail, nil
+				}
+				s.deref(pc, base)
+				for i, lf := range leaves {
+					k := s.structLeafKey(addr, x.Val.Type(), lf.sub)
+					v := s.zero(lf.typ)
+					if val.op == "structval" {
+						v = val.args[i]
+					}
+					s.mem[k] = p.app("store", "", s.memGet(k), base, v)
+				}
+				f.idx++
+				continue
 			}
 			s.deref(pc, base)
 			s.mem[fk] = p.app("store", "", s.memGet(fk), base, val)
@@ -504,28 +617,23 @@ func (s *symSide) doCall(pc *symPC, f *symFrame, x *ssa.Call) bool {
 		case *ssa.Function:
 			callee = v
 		case *ssa.Builtin:
+			if (v.Name() == "len" || v.Name() == "cap") && len(args) == 1 {
+				a := args[0]
+				if a.op == "slice" {
+					a = a.args[0]
+				}
+				if n, ok := s.x.arrLen[a.id]; ok {
+					f.env[x] = p.intc(int64(n))
+					f.idx++
+					return true
+				}
+			}
 			s.fail = "builtin " + v.Name()
 			return false
 		default:
 			fterm = s.operand(f, cc.Value)
 			if fterm.op == "closure" {
-				// find the function by name among the anonymous functions in scope
-				for fr := f; fr != nil && callee == nil; fr = fr.caller {
-					var find func(fn *ssa.Function)
-					find = func(fn *ssa.Function) {
-						for _, a := range fn.AnonFuncs {
-							if a.Name() == fterm.aux {
-								callee = a
-							}
-							find(a)
-						}
-					}
-					root := fr.fn
-					for root.Parent() != nil {
-						root = root.Parent()
-					}
-					find(root)
-				}
+				callee = s.x.fnByName[fterm.aux]
 				fvs = fterm.args
 			}
 		}
@@ -575,6 +683,7 @@ func (s *symSide) doCall(pc *symPC, f *symFrame, x *ssa.Call) bool {
 		return true
 	}
 	// external event: havocs memory
+	s.x.tracef("%s: external call %v in %s", s.name, fterm, f.fn.Name())
 	var fields []string
 	for k := range s.mem {
 		if !strings.HasPrefix(k, "cell:") {
@@ -675,6 +784,26 @@ type symGen struct {
 	nallocL  int
 	nallocR  int
 	attempts int
+	// prevMode: the generalised state stands for the 2nd, 3rd, .. visit.
+	// prevFacts: literals l(κ) such that l(κ-1) is assumed at the cut point:
+	// they were assumed during the concrete previous iteration (l(-1) is in
+	// the path condition of the second visit) and are re-established by every
+	// iteration that returns to the cut point (checked on arrival). cands are
+	// candidates collected on arrivals, dead the ones found not inductive.
+	prevMode  bool
+	prevFacts []symFact
+	cands     []symFact
+	dead      map[int]bool
+}
+
+type symFact struct {
+	term  *symTerm
+	kappa *symTerm
+	val   bool
+}
+
+func (x *symExec) factKey(f symFact) int {
+	return x.subst(f.term, f.kappa, x.pool.sym("k", "canonical")).id
 }
 
 func (m symMember) key() string {
@@ -824,9 +953,11 @@ func (x *symExec) generalise(s1, s2 *symState, g *symGen, base2 bool) (*symState
 	p := x.pool
 	x.gens++
 	if !sameDerefs(s1.L.derefs, s1.R.derefs) || !sameDerefs(s2.L.derefs, s2.R.derefs) {
+		x.tracef("generalise: derefs differ: visit1 L=%v R=%v; visit2 L=%v R=%v", derefList(s1.L.derefs), derefList(s1.R.derefs), derefList(s2.L.derefs), derefList(s2.R.derefs))
 		return nil, false
 	}
 	if s1.L.nalloc-s1.R.nalloc != s2.L.nalloc-s2.R.nalloc || s1.L.nalloc != s1.R.nalloc {
+		x.tracef("generalise: allocation counts differ")
 		return nil, false
 	}
 	gs := s1.clone()
@@ -1119,6 +1250,9 @@ func (x *symExec) explore(st *symState, hist []*symVisit) symResult {
 					return symResult{genKey: key, prevFail: true}
 				}
 				if x.inductive(v.gen, v.snap, st) {
+					if v.gen.prevMode && !x.arrival(v.gen, v.snap, st) {
+						return symResult{genKey: key, genSnap: nil}
+					}
 					x.tracef("inductive at %s", key)
 					return symResult{ok: true}
 				}
@@ -1188,7 +1322,14 @@ func (x *symExec) explore(st *symState, hist []*symVisit) symResult {
 						return r0
 					}
 				}
-				run.pc.assume(x.subst(c2, g.kappa, x.pool.add(g.kappa, x.pool.intc(-1))), b)
+				km1 := x.pool.add(g.kappa, x.pool.intc(-1))
+				run.pc.assume(x.subst(c2, g.kappa, km1), b)
+				g.prevMode = true
+				for _, f := range g.prevFacts {
+					t := x.subst(f.term, f.kappa, g.kappa)
+					run.pc.assume(x.subst(t, g.kappa, km1), f.val)
+				}
+				g.cands = nil
 				gvNR := &symVisit{key: key, snap: gv.snap, gen: g, depth: len(hist), noReturn: true}
 				var r2 symResult
 				for _, branch := range []bool{b, !b} {
@@ -1218,8 +1359,15 @@ func (x *symExec) explore(st *symState, hist []*symVisit) symResult {
 					}
 					continue
 				}
+				if r2.mismatch != nil && len(g.cands) > 0 {
+					// retry knowing what the previous iteration established
+					g.prevFacts = append(g.prevFacts, g.cands...)
+					g.cands = nil
+					continue
+				}
 				return r2
 			}
+			g.prevMode = false
 			if kk != symStopIf {
 				// the branch became determined in the generalised state: just continue
 				r2 := x.explore(run, append(hist, gv))
@@ -1318,4 +1466,122 @@ func derefList(m map[int]*symTerm) []string {
 	}
 	sort.Strings(out)
 	return out
+}
+
+type symLeaf struct {
+	sub string // "i" or "i/j/.."
+	typ types.Type
+}
+
+// symStructLeaves: the non-struct fields of struct type t, by-value
+// sub-structs flattened, in declaration order.
+func symStructLeaves(t types.Type) []symLeaf {
+	st, ok := deref(t).Underlying().(*types.Struct)
+	if pt, isPtr := t.Underlying().(*types.Pointer); isPtr {
+		st, ok = pt.Elem().Underlying().(*types.Struct)
+	} else if s2, isS := t.Underlying().(*types.Struct); isS {
+		st, ok = s2, true
+	}
+	if !ok {
+		return nil
+	}
+	var out []symLeaf
+	for i := 0; i < st.NumFields(); i++ {
+		ft := st.Field(i).Type()
+		if _, isStruct := ft.Underlying().(*types.Struct); isStruct {
+			for _, l := range symStructLeaves(ft) {
+				out = append(out, symLeaf{fmt.Sprintf("%d/%s", i, l.sub), l.typ})
+			}
+			continue
+		}
+		out = append(out, symLeaf{fmt.Sprint(i), ft})
+	}
+	return out
+}
+
+// structLeafKey: the memory key of leaf sub of the struct of type t at addr
+// (addr is the address term of a by-value sub-struct, or a pointer to a whole object).
+func (s *symSide) structLeafKey(addr *symTerm, t types.Type, sub string) string {
+	if addr.op == "addr" {
+		if strings.HasPrefix(addr.aux, "cell:") {
+			return addr.aux + "/" + sub
+		}
+		return s.leafKey(addr.aux + "/" + sub)
+	}
+	if symIsLocal(addr) {
+		return "cell:" + s.typeKey(t) + "." + sub
+	}
+	return s.leafKey(s.typeKey(t) + "." + sub)
+}
+
+// symIsLocal: the address of a non-escaping local variable (its memory is
+// private to the activation and not part of the observable outcome).
+func symIsLocal(t *symTerm) bool {
+	return t.op == "alloc" && strings.HasPrefix(t.aux, "cell.")
+}
+
+// arrival is called when a path from the generalised state (2nd, 3rd, ..
+// visit) returns to its cut point with state s3. It verifies that the
+// assumed facts about the previous iteration were re-established by this
+// one (else the fact is dropped and false is returned: retry without it) and
+// collects further candidates: literals over κ assumed during this iteration
+// whose κ=-1 instance is known with the same value at the second visit.
+func (x *symExec) arrival(g *symGen, gs, s3 *symState) bool {
+	ok := true
+	var keep []symFact
+	for _, f := range g.prevFacts {
+		t := x.subst(f.term, f.kappa, g.kappa)
+		if v, known := s3.pc.lookup(t); known && v == f.val {
+			keep = append(keep, f)
+			continue
+		}
+		if g.dead == nil {
+			g.dead = map[int]bool{}
+		}
+		g.dead[x.factKey(f)] = true
+		x.tracef("previous-iteration fact not re-established: %v", t)
+		ok = false
+	}
+	g.prevFacts = keep
+	if !ok {
+		return false
+	}
+	minus1 := x.pool.intc(-1)
+	var ids []int
+	for id := range s3.pc.lits {
+		if _, had := gs.pc.lits[id]; !had {
+			ids = append(ids, id)
+		}
+	}
+	sort.Ints(ids)
+	for _, id := range ids {
+		if id-1 >= len(x.pool.terms) {
+			continue
+		}
+		t := x.pool.terms[id-1]
+		tm1 := x.subst(t, g.kappa, minus1)
+		if tm1 == t {
+			continue // does not depend on κ
+		}
+		val := s3.pc.lits[id]
+		if v0, known := gs.pc.lookup(tm1); !known || v0 != val {
+			continue
+		}
+		f := symFact{term: t, kappa: g.kappa, val: val}
+		k := x.factKey(f)
+		if g.dead[k] {
+			continue
+		}
+		dup := false
+		for _, h := range append(append([]symFact{}, g.prevFacts...), g.cands...) {
+			if x.factKey(h) == k {
+				dup = true
+			}
+		}
+		if !dup {
+			x.tracef("candidate previous-iteration fact: %v = %v", t, val)
+			g.cands = append(g.cands, f)
+		}
+	}
+	return true
 }
